@@ -26,6 +26,8 @@ pub enum Op {
     Delete { ds: u8, name: String, fl: u8 },
     MkDir { ds: u8, name: String, fl: u8 },
     HasOpen,
+    /// n times open_root_dir + close_dir: many handle generations while whatever is open stays open
+    Churn { vs: u8, n: u32 },
     Label { vs: u8 },
     StaleVol { vs: u8, m: u8 },
     StaleDir { ds: u8, m: u8 },
@@ -57,6 +59,7 @@ impl Op {
             Op::Delete { .. } => "delete_file_in_dir",
             Op::MkDir { .. } => "make_dir_in_dir",
             Op::HasOpen => "has_open_handles",
+            Op::Churn { .. } => "handle_churn",
             Op::Label { .. } => "get_root_volume_label",
             Op::StaleVol { .. } => "stale_volume",
             Op::StaleDir { .. } => "stale_dir",
